@@ -4,13 +4,20 @@
    Model: Codec/CodecDefs.v (M-CODEC), Codec/Sanitize.v, Codec/InlVec.v (M-IV).
    [reinsert] stands for the standard library rebuilding a set/map/unordered container from the
    decoded elements, [render] for libfmt on the decoded values, [mem] for the caller's memory at
-   the time the backend formats; [disp] = true is the code as it is (std::tuple decodes its
-   elements with the codec of their decoded type). *)
+   the time the backend formats; [disp] = which codec decodes the elements of a std::tuple: true = the codec
+   of their decoded type (the pinned code, finding C04-F3), false = the codec that encoded them (the repaired
+   code). [src_disp] (TieC04.v) is the variant the source tree has now, read from std/Tuple.h on every run. *)
 From Coq Require Import List NArith Bool.
 From Quill Require Import Base.Bytes Codec.CodecDefs Codec.CodecProofs Codec.Sanitize Codec.SanitizeProofs
-  Codec.InlVec Codec.InlVecProofs.
+  Codec.InlVec Codec.InlVecProofs TieC04.
 Import ListNotations.
 Local Open Scope N_scope.
+
+(* T-src: Codec<std::tuple<Types...>>::decode_arg decodes element i with Codec<Types_i> *)
+Theorem C04_tie_tuple_decoder : src_disp = false /\
+  QuillGen.SrcFacts.sk_codec_tuple_decode_body = expected_tuple_decode_body.
+Proof. exact (conj src_tuple_decodes_with_element_codecs src_tuple_decode_body). Qed.
+Print Assumptions C04_tie_tuple_decoder.
 
 (* the fixed-width integer codec is proved, not assumed *)
 Theorem bytes_codec : forall w n tl,
@@ -39,36 +46,37 @@ Print Assumptions codec_cache_sync.
 
 (* decode (encode v ++ rest) = (canon v, rest): written = consumed and the value read back is the
    canonical one (C string / char array cut at the first NUL, null pointer -> "", embedded NULs of
-   std::string kept, sets/maps re-inserted).  Hypothesis: no StringRef below a std::tuple. *)
-Theorem codec_roundtrip : forall reinsert dd t, ok_ty true dd t = true -> forall v, wt t v ->
+   std::string kept, sets/maps re-inserted).  The hypothesis ok_ty (no StringRef below a std::tuple when the tuple
+   decoder dispatches on decoded types) holds for every type in the source variant: C04_no_side_condition. *)
+Theorem codec_roundtrip : forall reinsert dd t, ok_ty src_disp dd t = true -> forall v, wt t v ->
   forall off rest tl,
   exists bs, enc t v off (snd (size t v) ++ rest) = Some (bs, rest)
-             /\ dec reinsert true dd t off (bs ++ tl) = Some (canon reinsert t v, tl).
-Proof. exact (fun reinsert => codec_roundtrip_thm reinsert true). Qed.
+             /\ dec reinsert src_disp dd t off (bs ++ tl) = Some (canon reinsert t v, tl).
+Proof. exact (fun reinsert => codec_roundtrip_thm reinsert src_disp). Qed.
 Print Assumptions codec_roundtrip.
 
 (* whole statement: header (32) + arguments + optional dynamic level;
    reserved = written = consumed, header / arguments / level read back *)
-Theorem stmt_size_exact : forall reinsert ts vs, forallb (ok_ty true false) ts = true -> wt_zip (map wt ts) vs ->
+Theorem stmt_size_exact : forall reinsert ts vs, forallb (ok_ty src_disp false) ts = true -> wt_zip (map wt ts) vs ->
   forall h, h_ok h -> forall dyn cache0 base tl,
   exists bs,
     stmt_encode h ts vs dyn base (snd (stmt_reserved true cache0 ts vs dyn)) = Some bs
     /\ lenN bs = fst (stmt_reserved true cache0 ts vs dyn)
-    /\ stmt_decode reinsert true ts (is_some dyn) base (bs ++ tl)
+    /\ stmt_decode reinsert src_disp ts (is_some dyn) base (bs ++ tl)
        = Some (h, can_zip (map (canon reinsert) ts) vs, dyn, tl).
-Proof. exact (fun reinsert => stmt_exact reinsert true). Qed.
+Proof. exact (fun reinsert => stmt_exact reinsert src_disp). Qed.
 Print Assumptions stmt_size_exact.
 
 (* for any libfmt [render]: the text made from the decoded arguments is the text made from the
    canonical values *)
 Theorem C04_text_equal : forall (render : list byte -> list val -> list byte) reinsert ts vs,
-  forallb (ok_ty true false) ts = true -> wt_zip (map wt ts) vs ->
+  forallb (ok_ty src_disp false) ts = true -> wt_zip (map wt ts) vs ->
   forall f cache0 off tl,
   exists bs decoded,
     args_encode ts vs off (snd (args_size true cache0 ts vs)) = Some (bs, stale cache0 ts)
-    /\ args_decode reinsert true ts off (bs ++ tl) = Some (decoded, tl)
+    /\ args_decode reinsert src_disp ts off (bs ++ tl) = Some (decoded, tl)
     /\ render f decoded = render f (can_zip (map (canon reinsert) ts) vs).
-Proof. exact (fun render reinsert => text_equal render reinsert true). Qed.
+Proof. exact (fun render reinsert => text_equal render reinsert src_disp). Qed.
 Print Assumptions C04_text_equal.
 
 (* full-strength clause: = the text of the caller's own view of the arguments, when no unordered
@@ -76,13 +84,13 @@ Print Assumptions C04_text_equal.
 Theorem C04_callsite_text_equal : forall reinsert,
   (forall l, reinsert (CSeq KSet) l = l) -> (forall l, reinsert (CMap KMap) l = l) ->
   forall (render : list byte -> list val -> list byte) ts vs,
-  forallb (ok_ty true false) ts = true -> forallb ordered_ty ts = true -> wt_zip (map wt ts) vs ->
+  forallb (ok_ty src_disp false) ts = true -> forallb ordered_ty ts = true -> wt_zip (map wt ts) vs ->
   forall f cache0 off tl,
   exists bs decoded,
     args_encode ts vs off (snd (args_size true cache0 ts vs)) = Some (bs, stale cache0 ts)
-    /\ args_decode reinsert true ts off (bs ++ tl) = Some (decoded, tl)
+    /\ args_decode reinsert src_disp ts off (bs ++ tl) = Some (decoded, tl)
     /\ render f decoded = render f (can_zip (map view ts) vs).
-Proof. exact (fun reinsert Hs Hm render => callsite_text_equal reinsert Hs Hm render true). Qed.
+Proof. exact (fun reinsert Hs Hm render => callsite_text_equal reinsert Hs Hm render src_disp). Qed.
 Print Assumptions C04_callsite_text_equal.
 
 (* deep copy: without StringRef among the argument types, what the backend formats does not
@@ -92,9 +100,9 @@ Theorem C04_deep_copy : forall reinsert, (forall c l x, In x (reinsert c l) -> I
   forall cache0 off tl,
   exists bs decoded,
     args_encode ts vs off (snd (args_size true cache0 ts vs)) = Some (bs, stale cache0 ts)
-    /\ args_decode reinsert true ts off (bs ++ tl) = Some (decoded, tl)
+    /\ args_decode reinsert src_disp ts off (bs ++ tl) = Some (decoded, tl)
     /\ forall mem, map (resolve mem) decoded = can_zip (map (canon reinsert) ts) vs.
-Proof. exact (fun reinsert Hi => deep_copy reinsert Hi true). Qed.
+Proof. exact (fun reinsert Hi => deep_copy reinsert Hi src_disp). Qed.
 Print Assumptions C04_deep_copy.
 
 (* deferred non-trivially-copyable types are constructed at an aligned address inside their
@@ -131,8 +139,36 @@ Theorem iv_clear_keeps_capacity :
 Proof. exact (conj iv_clear_keeps_capacity_thm iv_cap_monotone). Qed.
 Print Assumptions iv_clear_keeps_capacity.
 
+(* in the variant the source tree has (T-src: src_disp = false) the side condition on the types is void: every
+   type of the universe, std::tuple<StringRef, ...> included, is decoded by the codec that encoded it *)
+Theorem C04_no_side_condition : forall ts, forallb (ok_ty src_disp false) ts = true.
+Proof. rewrite src_tuple_decodes_with_element_codecs. exact ok_tys_element_codecs. Qed.
+Print Assumptions C04_no_side_condition.
+
+(* hence, for the source tree: every argument list over the type universe, no premise on the types *)
+Theorem C04_text_equal_code : forall (render : list byte -> list val -> list byte) reinsert ts vs,
+  wt_zip (map wt ts) vs ->
+  forall f cache0 off tl,
+  exists bs decoded,
+    args_encode ts vs off (snd (args_size true cache0 ts vs)) = Some (bs, stale cache0 ts)
+    /\ args_decode reinsert src_disp ts off (bs ++ tl) = Some (decoded, tl)
+    /\ render f decoded = render f (can_zip (map (canon reinsert) ts) vs).
+Proof. exact (fun render reinsert ts vs => C04_text_equal render reinsert ts vs (C04_no_side_condition ts)). Qed.
+Print Assumptions C04_text_equal_code.
+
+Theorem stmt_size_exact_code : forall reinsert ts vs, wt_zip (map wt ts) vs ->
+  forall h, h_ok h -> forall dyn cache0 base tl,
+  exists bs,
+    stmt_encode h ts vs dyn base (snd (stmt_reserved true cache0 ts vs dyn)) = Some bs
+    /\ lenN bs = fst (stmt_reserved true cache0 ts vs dyn)
+    /\ stmt_decode reinsert src_disp ts (is_some dyn) base (bs ++ tl)
+       = Some (h, can_zip (map (canon reinsert) ts) vs, dyn, tl).
+Proof. exact (fun reinsert ts vs => stmt_size_exact reinsert ts vs (C04_no_side_condition ts)). Qed.
+Print Assumptions stmt_size_exact_code.
+
 (* ------------------------------------------------------------------ refutations *)
-(* std::tuple<StringRef, ...>: the faithful decoder fails on the bytes the encoder wrote *)
+(* std::tuple<StringRef, ...> in the pinned variant (disp = true, finding C04-F3, fixed): the decoder fails on the
+   bytes the encoder wrote; the variant dispatching on the element types reads the value back *)
 Theorem codec_roundtrip_refuted_tuple_stringref :
   wt rf_t rf_v /\ ok_ty true false rf_t = false /\
   exists bs, enc rf_t rf_v 0 [] = Some (bs, []) /\ lenN bs = fst (size rf_t rf_v) /\
